@@ -81,6 +81,8 @@ func (c *Check) writeEvidence(wall time.Duration, violations, known int) {
 		"replay_recheck_mismatches": c.recheckBad,
 		"child_release_batches":    c.gateBatches,
 		"log_bytes_written":        c.logBytes,
+		"log_bytes_by_single_flag": c.logByFlags,
+		"failing_sink_on_logging_runs": c.sinkArmed,
 		"probes":                   probes,
 		"counters":                 other,
 		"uncontrolled_sources":     c.env.Uncontrol,
